@@ -742,8 +742,24 @@ class Sim:
                 if _is_coll(w[o]) and rng.random() < 0.7:
                     key = rng.choice(["children", "children", "collections", "sources", "sensors"])
                     op["kw"] = [[key, [pick() for _ in range(rng.choice([1, 2, 2, 3]))]]]
-                    if rng.random() < 0.3:
+                    r2 = rng.random()
+                    deep = [i for i in colls if i != o and any(getattr(ch, "_children", None)
+                                                                for ch in w[i]._children)]
+                    if deep and rng.random() < 0.4:
+                        # a collection with grandchildren given as sources / sensors is flattened: objects from
+                        # two levels down change their parent - and must get it back when the call is rejected
+                        op["kw"] = [[rng.choice(["sources", "sensors"]), [rng.choice(deep)]]]
+                        key = op["kw"][0][0]
+                        r2 = rng.choice([0.35, 0.5, r2])
+                    if r2 < 0.3:
                         op["kw"].append(["parent", rng.choice(colls)])
+                    elif r2 < 0.45:
+                        # a parent that is rejected after the tree inputs were applied: everything must be put back
+                        op["kw"].append(["parent", "$junk"])
+                    elif r2 < 0.55:
+                        # ... or a second tree input that is rejected
+                        op["kw"].append([rng.choice([k for k in ("children", "sources", "sensors") if k != key]),
+                                         [pick(), "$junk"]])
                 else:
                     op["kw"] = [["parent", rng.choice(colls)]]
         else:
